@@ -188,6 +188,27 @@ def blob_corpus(rng):
         yield (label + '-xml-all', 'xml', xml_file(cls, pname, blobs))
 
 
+def name_corpus(rng):
+    """yields (label, decoder, bytes): property / class / instance names of lengths around 2^6, 100, 2^7, 2^8 and 2^16 with a multi-byte
+    character straddling the boundary, on PROP chunks whose VALUE is malformed (so that error paths that quote the name are taken)."""
+    for L in (63, 64, 99, 100, 101, 127, 128, 255, 256, 1000, 65535, 65536):
+        for ch in ('\u00e9', '\u4e2d', '\U0001f600'):
+            name = ('x' * (L - 1) + ch + 'tail').encode()
+            bad_values = [(0x0a, b'\xff', 'faces'), (0x10, b'\x7f' + b'\0' * 12, 'cframe-rotation-id'), (0x0b, _enc_u32be([99999]), 'brickcolor'),
+                          (0x1c, _enc_u32be([77]), 'sharedstring-index'), (0x02, b'\x01', 'type-mismatch-bool')]
+            for tid, payload, what in bad_values:
+                chunks = [chunk(b'INST', inst(0, 'Part', [0]), rng=rng),
+                          chunk(b'PROP', u32(0) + _pstr(name) + bytes([tid]) + payload, rng=rng),
+                          chunk(b'PRNT', prnt([0], [-1]), rng=rng)]
+                yield ('longname-prop-%s' % what, 'bin', assemble(1, 1, chunks))
+            # the same name as class name and as instance name (valid values)
+            chunks = [chunk(b'INST', inst(0, name.decode(), [0]), rng=rng), chunk(b'PROP', prop(0, 'Name', 0x01, _pstr(name)), rng=rng), chunk(b'PRNT', prnt([0], [-1]), rng=rng)]
+            yield ('longname-class-and-instance', 'bin', assemble(1, 1, chunks))
+            xml = ('<roblox version="4"><Item class="Part" referent="R0"><Properties><string name="Name">%s</string><Faces name="%s"><faces>999</faces></Faces>'
+                   '<token name="%s">notanumber</token></Properties></Item></roblox>' % (name.decode(), name.decode(), name.decode())).encode()
+            yield ('longname-xml', 'xml', xml)
+
+
 def make(path, seed):
     rng = random.Random(f'c13-{seed}')
     n = 0
@@ -197,6 +218,9 @@ def make(path, seed):
                 out.write(json.dumps({'label': label, 'hex': data.hex()}) + '\n')
                 n += 1
         for label, dec, data in blob_corpus(rng):
+            out.write(json.dumps({'label': label, 'dec': dec, 'hex': data.hex()}) + '\n')
+            n += 1
+        for label, dec, data in name_corpus(rng):
             out.write(json.dumps({'label': label, 'dec': dec, 'hex': data.hex()}) + '\n')
             n += 1
     return n
